@@ -138,3 +138,219 @@ def check_c06(rr: dict, w, fkind: str) -> list[dict]:
         if not disk.endswith(text):
             out.append(V("file", f"trace_file_not_flushed/{fkind}", f"{rel}: {len(disk)} bytes on disk, {len(text)} written"))
     return out
+
+
+# ======================================================================= C07
+def _ts_problem(ts, readings: set, tz_off: int) -> str | None:
+    t = harness.parse_rfc3339(ts)
+    if t is None:
+        return "not_rfc3339"
+    if any(abs(t - r) < 0.0006 for r in readings):
+        return None
+    if tz_off and any(abs((t - tz_off) - r) < 0.0006 for r in readings):
+        return "local_time_labelled_utc"
+    return "not_a_clock_reading"
+
+
+def check_c07(rr: dict, w, sc: dict, truth: list[dict] | None, fkind: str, tz: str, digest_book: dict) -> list[dict]:
+    """C07 for one traced run. truth = generator bookkeeping for the (fault-free) node list or None."""
+    out: list[dict] = []
+    recs, _ = harness.parse_lines(rr["emissions"])
+    parts = split_records(recs)
+    sers = parts["ser"]
+    oc = rr["outcome"]
+    ex = rr["exec_log"]
+    nodes = list(getattr(rr["pipeline"].orchestrator, "last_nodes", []) or [])
+    tz_off = harness.tz_offset_seconds(tz)
+    readings = set(rr["readings"])
+    inv_by_node: dict[int, list[dict]] = {}
+    for iv in rr["invocations"]:
+        inv_by_node.setdefault(iv["node"], []).append(iv)
+
+    from semantiva.data_types import NoDataType
+    from semantiva.examples.test_utils import FloatDataType
+    init_data = NoDataType() if sc.get("init_data") is None else FloatDataType(float(sc["init_data"]))
+
+    prev_ctx = dict(rr["pre_ctx"])
+    prev_data = init_data
+    last_ts = None
+    # timestamps of lifecycle records
+    seq_ts: list[tuple[str, Any]] = []
+    for r in recs:
+        if r.get("record_type") in ("pipeline_start", "pipeline_end"):
+            seq_ts.append((r["record_type"] + ".timestamp", r.get("timestamp")))
+        elif r.get("record_type") == "ser":
+            tm = r.get("timing") or {}
+            seq_ts.append(("ser.started_at", tm.get("started_at")))
+            seq_ts.append(("ser.finished_at", tm.get("finished_at")))
+    # "every timestamp denotes the true UTC instant in RFC 3339 form, non-decreasing along the stream, whatever the host time zone"
+    prev_t = None
+    for name, ts in seq_ts:
+        prob = _ts_problem(ts, readings, tz_off)
+        if prob:
+            out.append(V("timestamp", f"{prob}:{name}", f"{name}={ts!r} under TZ={tz}; {len(readings)} clock readings in this call"))
+            break
+    for name, ts in seq_ts:
+        t = harness.parse_rfc3339(ts)
+        if t is None:
+            continue
+        if prev_t is not None and t < prev_t - 0.0006:
+            out.append(V("timestamp", f"decreasing:{name}", f"{name}={ts!r} earlier than its predecessor in the stream (TZ={tz})"))
+            break
+        prev_t = t
+
+    for k, s in enumerate(sers):
+        e = ex[k] if k < len(ex) else None
+        failed_here = (not oc["ok"]) and k == len(ex) - 1
+        proc = s.get("processor") or {}
+        cd = s.get("context_delta") or {}
+        tm = s.get("timing") or {}
+        tk = truth[k] if truth is not None and k < len(truth) else None
+        label = tk["kind"] if tk else "inserted"
+        # "durations are non-negative"
+        for fld in ("wall_ms", "cpu_ms"):
+            v = tm.get(fld)
+            if isinstance(v, (int, float)) and v < 0:
+                out.append(V("timing", f"negative_{fld}", f"SER {k}: {fld}={v}"))
+        # stall fault: the duration must cover it
+        stalls = [f for f in w.faults_fired if f["kind"] == "stall" and f["node"] == k and f["run"] == w.cur_run]
+        if stalls and isinstance(tm.get("wall_ms"), (int, float)) and tm["wall_ms"] < 1000:
+            out.append(V("timing", "stall_not_reflected_in_wall_ms", f"SER {k}: wall_ms={tm.get('wall_ms')} although the node stalled"))
+        if e is not None and e.get("status") == "returned" and not failed_here:
+            post = e["post_ctx"]
+            # "created_keys/updated_keys equal the actual difference between the context before and after the node"
+            want_created = sorted(set(post) - set(prev_ctx))
+            want_updated = sorted(kk for kk in set(post) & set(prev_ctx) if not _same(post[kk], prev_ctx[kk]))
+            if sorted(cd.get("created_keys") or []) != want_created:
+                out.append(V("context_delta", f"created_keys:{label}", f"SER {k} ({proc.get('ref')}): created_keys={cd.get('created_keys')} actual={want_created}"))
+            if sorted(cd.get("updated_keys") or []) != want_updated:
+                out.append(V("context_delta", f"updated_keys:{label}", f"SER {k} ({proc.get('ref')}): updated_keys={cd.get('updated_keys')} actual={want_updated}"))
+        else:
+            post = None
+        # "processor.ref names the class that ran"
+        if k < len(nodes):
+            pcls = type(nodes[k].processor)
+            want_ref = f"{pcls.__module__}.{pcls.__qualname__}"
+            if proc.get("ref") != want_ref:
+                out.append(V("processor_ref", f"ref_ne_class:{label}", f"SER {k}: ref={proc.get('ref')} class that ran={want_ref}"))
+        ivs = inv_by_node.get(k, [])
+        if ivs and tk and not tk["generated"]:
+            if str(proc.get("ref", "")).rsplit(".", 1)[-1] != ivs[0]["cls"]:
+                out.append(V("processor_ref", f"ref_ne_leaf:{label}", f"SER {k}: ref={proc.get('ref')} but leaf {ivs[0]['cls']} ran"))
+        # "processor.parameters and parameter_sources give, for every parameter the node resolved, the value actually
+        #  passed and the channel (node, context, default) it actually came from"
+        if ivs and tk:
+            passed = ivs[0]["kwargs"]
+            pars = proc.get("parameters") or {}
+            srcs = proc.get("parameter_sources") or {}
+            for pname, chan in sorted(tk["channels"].items()):
+                if pname not in passed:
+                    continue
+                if pname not in pars:
+                    out.append(V("parameters", f"missing:{chan}", f"SER {k} ({proc.get('ref')}): parameter {pname!r} (resolved from {chan}, value {passed[pname]!r}) absent from processor.parameters={pars}"))
+                elif not _same(pars[pname], passed[pname]):
+                    out.append(V("parameters", f"wrong_value:{chan}", f"SER {k}: parameter {pname!r} reported {pars[pname]!r} but {passed[pname]!r} was passed"))
+                if pname in pars or pname in srcs:
+                    if srcs.get(pname) != chan:
+                        out.append(V("parameters", f"wrong_source:{chan}_reported_{srcs.get(pname)}", f"SER {k}: parameter {pname!r} came from {chan}, parameter_sources says {srcs.get(pname)!r}"))
+        # built-in checks
+        pre_checks = {c.get("code"): c for c in (s.get("assertions") or {}).get("preconditions", [])}
+        post_checks = {c.get("code"): c for c in (s.get("assertions") or {}).get("postconditions", [])}
+        rk = pre_checks.get("required_keys_present")
+        if rk is not None:
+            exp = (rk.get("details") or {}).get("expected_keys") or []
+            holds = all(kk in prev_ctx for kk in exp)
+            if (rk.get("result") == "PASS") != holds:
+                out.append(V("checks", f"required_keys_present_{rk.get('result')}_but_{holds}", f"SER {k}: expected_keys={exp} pre-context keys={sorted(prev_ctx)}"))
+            if tk is not None:
+                must = [p for p, ch in tk["channels"].items() if ch == "context" and _no_default(tk, p)]
+                lack = [p for p in must if p not in exp]
+                if lack:
+                    out.append(V("checks", "required_keys_present_omits_context_parameter", f"SER {k}: parameters {lack} were resolved from context (no default) but expected_keys={exp}"))
+        else:
+            out.append(V("checks", "required_keys_present_absent", f"SER {k} has no required_keys_present check"))
+        if fkind == "unresolvable" and failed_here and rk is not None and rk.get("result") != "FAIL":
+            out.append(V("checks", "required_keys_present_PASS_on_unresolvable", f"SER {k}: parameter {sc.get('fail', {}).get('param')} could not be resolved yet check={rk}"))
+        it = pre_checks.get("input_type_ok")
+        if it is not None and k < len(nodes):
+            try:
+                exp_t = nodes[k].processor.input_data_type()
+                holds = isinstance(prev_data, exp_t)
+                if (it.get("result") == "PASS") != holds:
+                    out.append(V("checks", f"input_type_ok_{it.get('result')}_but_{holds}", f"SER {k}: actual {type(prev_data).__name__}, declared {exp_t.__name__}"))
+            except Exception:
+                pass
+        if e is not None and e.get("status") == "returned" and not failed_here:
+            ot = post_checks.get("output_type_ok")
+            odt = getattr(nodes[k].processor, "output_data_type", None) if k < len(nodes) else None
+            if ot is not None and callable(odt):
+                try:
+                    exp_t = odt()
+                    holds = isinstance(e["out_obj"], exp_t)
+                    if (ot.get("result") == "PASS") != holds:
+                        out.append(V("checks", f"output_type_ok_{ot.get('result')}_but_{holds}", f"SER {k}: actual {type(e['out_obj']).__name__}, declared {exp_t.__name__}"))
+                except Exception:
+                    pass
+            cw = post_checks.get("context_writes_realized")
+            if cw is not None:
+                det = cw.get("details") or {}
+                listed = list(det.get("created_keys") or []) + list(det.get("updated_keys") or [])
+                holds = all(kk in post for kk in listed)
+                if (cw.get("result") == "PASS") != holds:
+                    out.append(V("checks", f"context_writes_realized_{cw.get('result')}_but_{holds}", f"SER {k}: listed={listed} post keys={sorted(post)}"))
+        # digests
+        sm = s.get("summaries") or {}
+        if k + 1 < len(sers):
+            nx = sers[k + 1].get("summaries") or {}
+            a, b = (sm.get("output_data") or {}).get("sha256"), (nx.get("input_data") or {}).get("sha256")
+            if a is not None and b is not None and a != b:
+                out.append(V("digest", "output_k_ne_input_k1", f"SER {k} output_data {a} != SER {k+1} input_data {b}"))
+            a, b = (sm.get("post_context") or {}).get("sha256"), (nx.get("pre_context") or {}).get("sha256")
+            if a is not None and b is not None and a != b:
+                out.append(V("digest", "post_ctx_k_ne_pre_ctx_k1", f"SER {k} post_context {a} != SER {k+1} pre_context {b}"))
+        if e is not None and e.get("status") == "returned" and not failed_here:
+            dg = (sm.get("output_data") or {}).get("sha256")
+            if dg is not None:
+                import json as _json
+                content = _json.dumps(e["out_data"], sort_keys=True, default=repr)
+                _book(digest_book, "data", content, dg, out, k)
+            cg = (sm.get("post_context") or {}).get("sha256")
+            if cg is not None:
+                import json as _json
+                content = _json.dumps(post, sort_keys=True, default=repr)
+                _book(digest_book, "ctx", content, cg, out, k)
+        if e is not None and e.get("status") == "returned" and not failed_here:
+            prev_ctx = dict(post)
+            prev_data = e["out_obj"]
+    return out
+
+
+def _book(book: dict, space: str, content: str, digest: str, out: list, k: int) -> None:
+    """'digests are functions of content ... equal content gives equal digests' (and distinct content is told apart)."""
+    fwd = book.setdefault(space + ">", {})
+    rev = book.setdefault(space + "<", {})
+    if content in fwd and fwd[content] != digest:
+        out.append(V("digest", f"equal_{space}_content_different_digest", f"SER {k}: content {content[:120]} has digests {fwd[content]} and {digest}"))
+    fwd.setdefault(content, digest)
+    if digest in rev and rev[digest] != content:
+        out.append(V("digest", f"different_{space}_content_same_digest", f"SER {k}: digest {digest} for {rev[digest][:100]} and {content[:100]}"))
+    rev.setdefault(digest, content)
+
+
+def _same(a, b) -> bool:
+    try:
+        if isinstance(a, float) or isinstance(b, float):
+            return float(a) == float(b)
+    except Exception:
+        pass
+    try:
+        import json
+        return json.dumps(a, sort_keys=True, default=repr) == json.dumps(b, sort_keys=True, default=repr)
+    except Exception:
+        return a == b
+
+
+def _no_default(tk: dict, p: str) -> bool:
+    from .gen import CATALOG
+    spec = CATALOG.get(tk["name"])
+    return bool(spec) and spec["params"].get(p) is None
